@@ -4,7 +4,7 @@ import json, os, re
 ROOT = os.path.dirname(os.path.dirname(os.path.abspath(__file__)))
 m = json.load(open(os.path.join(ROOT, 'seeded', 'MATRIX.json')))
 rows = ['| change | what it breaks (from meta.json) | check → result |', '|---|---|---|']
-caught = missed = 0
+caught = missed = neutral = 0
 for name in sorted(m):
     meta = {}
     mp = os.path.join(ROOT, 'seeded', name, 'meta.json')
@@ -23,11 +23,15 @@ for name in sorted(m):
             cells.append('%s: **caught** (%s)' % (prop, ob.group(1) if ob else 'violation'))
         else:
             cells.append('%s: %s' % (prop, r.get('status', 'not caught')))
+    if meta.get('confirmed', {}).get('ok') is False:
+        neutral += 1
+        rows.append('| %s | %s | no longer breaks the property on the repaired tree (its demo passes; neutralised by a repo fix) - not counted |' % (name, summ))
+        continue
     caught += any_caught
     missed += not any_caught
     rows.append('| %s | %s | %s |' % (name, summ or '(revert of a repo fix)', '; '.join(cells)))
 rows.append('')
-rows.append('%d of %d changes are caught by at least one registered quick check; %d are not.' % (caught, caught + missed, missed))
+rows.append('%d of %d changes are caught by at least one registered quick check; %d are not; %d neutralised by a later repo fix.' % (caught, caught + missed, missed, neutral))
 p = os.path.join(ROOT, 'DESIGN.md')
 s = open(p).read()
 a = s.index('<!-- MATRIX-BEGIN -->') + len('<!-- MATRIX-BEGIN -->')
